@@ -18,7 +18,7 @@ def run(ctx):
         recs += rs
     if not ctx.quick():
         for sd in (ctx.seed, ctx.seed + 1):
-            r, rs = langfam.records(ctx, "multi", simulate=150, depth=8, seed=sd, max_fields=5)
+            r, rs = langfam.records(ctx, "multi", simulate=150, depth=8, seed=sd, max_fields=5, limit=300)
             fams["multi"] = fams.get("multi", 0) + len(rs)
             recs += rs
     pl = langfam.Pipeline(ctx, "c14")
